@@ -99,7 +99,9 @@ def _row_numbered_valueerror(site, s):
     node = site.node
     # find the call site of ValueError at that statement
     for c in s.calls():
-        if c.callee == "builtins.ValueError" and c.lineno >= site.lineno and c.lineno <= site.lineno + 12 and c.pc == site.pc:
+        near = c.lineno >= site.lineno and c.lineno <= site.lineno + 12
+        inlined = bool(s.inlined) and not near  # the message is built by a helper evaluated in place (same path condition)
+        if c.callee == "builtins.ValueError" and (near or inlined) and c.pc == site.pc:
             for a in c.args:
                 if any(x.op == "idx" for x in tm.walk(a)) or any(x.op == "sub" and x.a[0].op == "iter" and tm.is_const(x.a[1], 0) and _from_enumerate(x.a[0]) for x in tm.walk(a)):
                     return True
